@@ -765,14 +765,39 @@ def apply_contract(ex, c, q, node, self_val, args, kw, st):
             raise OutsideSubset('cannot havoc %s' % mod)
         st.objs[tgt.oid][fld] = nv
     results = c.make_result(ex, st, env) if hasattr(c, 'make_result') else [(st, None)]
+    if getattr(c, 'post_bind', None) and not hasattr(c, 'make_result'):
+        raise OutsideSubset('call of %s by a contract whose result shape is not declared (make_result)' % q)
     for s, res in results:
-        post = s.fork()
-        post.env = dict(env)
-        post.env['result'] = res
-        ex._old_state = pre
-        for e in getattr(c, 'ensures', []):
-            s.assume(_zz(ex.spec(e, post)))
-        outs.append((s, res))
+        # post_bind ghosts of the callee's contract (values of pure query methods in the exit state), computed here in
+        # the caller's state exactly as the verifier computes them at the callee's exits; may fork
+        states = [(s, {'result': res})]
+        for gname, gexpr in (getattr(c, 'post_bind', None) or {}).items():
+            nxt = []
+            for s_b, binds in states:
+                tmp = s_b.fork()
+                tmp.env = dict(env)
+                tmp.env.update(binds)
+                old_spec, ex._in_spec = getattr(ex, '_in_spec', False), True
+                old_facts, ex._facts = getattr(ex, '_facts', None), None
+                try:
+                    rr = ex.eval(ast.parse(gexpr, mode='eval').body, tmp)
+                finally:
+                    ex._in_spec, ex._facts = old_spec, old_facts
+                for s_r, v_r in rr:
+                    if smt.feasible(s_r.pc):
+                        b2 = dict(binds)
+                        b2[gname] = v_r
+                        s_r.env = dict(s_b.env)
+                        nxt.append((s_r, b2))
+            states = nxt
+        for s_b, binds in states:
+            post = s_b.fork()
+            post.env = dict(env)
+            post.env.update(binds)
+            ex._old_state = pre
+            for e in getattr(c, 'ensures', []):
+                s_b.assume(_zz(ex.spec(e, post)))
+            outs.append((s_b, res))
     for exc in getattr(c, 'may_raise', []):
         s2 = st.fork()
         ex.raise_on(s2, exc, 'from callee contract')
